@@ -77,7 +77,7 @@ def run_check(prop: str, repo: Path | None, tier="quick", seed=0, timeout=1500):
     except subprocess.TimeoutExpired as e:
         rc, out = 2, (e.stdout or "") + "\nTIMEOUT"
     lines = [l for l in out.splitlines() if l.startswith(("VIOLATION", "KNOWN-FINDING", "PROOF-BROKEN", "CORRESPONDENCE-BROKEN", "INFRA", "  what:"))]
-    return {"prop": prop, "rc": rc, "wall": round(time.time() - t0, 1), "lines": lines[:8], "tail": out.splitlines()[-1:] }
+    return {"prop": prop, "rc": rc, "wall": round(time.time() - t0, 1), "lines": lines[:16], "tail": out.splitlines()[-1:] }
 
 
 def demo_cmd(d: Path, repo: Path, hashseed=None):
@@ -162,6 +162,16 @@ def main():
             try:
                 with Worktree(SEEDED / sid / "patch.diff") as wt:
                     row = [run_check(p, wt) for p in props]
+                    # reported only through a broken proof / tie: look for a concrete failing input under other seeds as well
+                    def concrete(rs):
+                        return any(l.startswith("VIOLATION") and "no-failing-input-found" not in l for r in rs for l in r["lines"])
+                    for seed in (1, 2, 3):
+                        if concrete(row) or not any(r["rc"] == 1 for r in row):
+                            break
+                        extra = [run_check(p, wt, seed=seed) for p in props]
+                        for r in extra:
+                            r["seed"] = seed
+                        row += extra
             except SystemExit as e:
                 print(sid, "SKIPPED:", e, flush=True)
                 continue
